@@ -17,12 +17,21 @@ func arithmaticHelperiEx(equation func(int, int) int, nonZero bool) KeyBuilderFu
 			return stageErrArgRange(args, "2+")
 		}
 
-		typedArgs, tOk := mapTypedArgs(args, typedParserInt)
-		if !tOk {
-			return stageError(ErrNum)
+		// Constant operands are parsed once. One that is not an integer is a compile error, but it must fail
+		// where a run-time value would: the stage keeps the left-to-right order of checks (an earlier zero
+		// divisor still yields ErrorValue), so that the marker does not depend on what is constant
+		typedArgs := make([]typedStage[int], len(args))
+		tOk := true
+		for i, arg := range args {
+			typed, ok := evalTypedStage(arg, typedParserInt)
+			if !ok {
+				tOk = false
+				typed = func(context KeyBuilderContext) (int, bool) { return 0, false }
+			}
+			typedArgs[i] = typed
 		}
 
-		return KeyBuilderStage(func(context KeyBuilderContext) string {
+		stage := KeyBuilderStage(func(context KeyBuilderContext) string {
 			final, ok := typedArgs[0](context)
 			if !ok {
 				return ErrorNum
@@ -40,7 +49,12 @@ func arithmaticHelperiEx(equation func(int, int) int, nonZero bool) KeyBuilderFu
 			}
 
 			return strconv.Itoa(final)
-		}), nil
+		})
+
+		if !tOk {
+			return stage, ErrNum.err
+		}
+		return stage, nil
 	})
 }
 
